@@ -22,30 +22,61 @@ class SimHang(Exception):
 
 # ------------------------------------------------------------------------------- Type 3
 class SimT3Tag(object):
-    """memory = list of 16-byte blocks of the NDEF services (000Bh read, 0009h write)"""
+    """memory = list of 16-byte blocks of the NDEF services (000Bh read, 0009h write).
+
+    systems: system codes of the card in system number order.  As on every FeliCa card the IDm of system n
+    carries n in the upper four bits of its first byte; Polling with a wildcard answers for the first matching
+    system; the NDEF services exist only in system 12FCh.
+    sysblocks: further blocks by number (FeliCa Lite: 88h = MC); with lite=True the MC block's read/write
+    permission bits (little endian bit n = block n) are enforced and one block is written per command."""
 
     def __init__(self, blocks, idm=None, pmm=None, max_read=15, max_write=13, rw_service=True,
-                 sys_in_sensf=True):
+                 sys_in_sensf=True, systems=(0x12FC,), sysblocks=None, lite=False):
         self.blocks = [bytearray(b) for b in blocks]
         assert all(len(b) == 16 for b in self.blocks)
         self.idm = bytearray(idm or bytes.fromhex('0102030405060708'))
         self.pmm = bytearray(pmm or bytes.fromhex('FFFFFFFFFFFFFFFF'))
-        self.sys = bytearray(b'\x12\xFC')
+        self.systems = tuple(systems)
         self.max_read = max_read
         self.max_write = max_write
         self.rw_service = rw_service
         self.sys_in_sensf = sys_in_sensf
+        self.sysblocks = {k: bytearray(v) for k, v in (sysblocks or {}).items()}
+        self.lite = lite
+        self.attempts = []          # block lists of every write command received (also refused ones)
+
+    def idm_of(self, n):
+        return bytearray([(n << 4) | (self.idm[0] & 0x0F)]) + self.idm[1:]
+
+    def ndef_idm(self):
+        return self.idm_of(self.systems.index(0x12FC)) if 0x12FC in self.systems else self.idm
 
     def memory(self):
         return b''.join(bytes(b) for b in self.blocks)
 
     def clone(self):
-        t = SimT3Tag(self.blocks, self.idm, self.pmm, self.max_read, self.max_write, self.rw_service,
-                     self.sys_in_sensf)
-        return t
+        return SimT3Tag(self.blocks, self.idm, self.pmm, self.max_read, self.max_write, self.rw_service,
+                        self.sys_in_sensf, self.systems, self.sysblocks, self.lite)
 
     def sensf_res(self):
-        return bytearray(b'\x01') + self.idm + self.pmm + (self.sys if self.sys_in_sensf else b'')
+        """what a reader polling with the wildcard system code (request code 1) gets"""
+        sc = self.systems[0]
+        return bytearray(b'\x01') + self.idm_of(0) + self.pmm + (bytearray([sc >> 8, sc & 255]) if self.sys_in_sensf else b'')
+
+    def _block(self, num):
+        if num < len(self.blocks):
+            return self.blocks[num]
+        return self.sysblocks.get(num)
+
+    def _writable(self, num):
+        if not self.lite:
+            return True
+        mc = self.sysblocks.get(0x88)
+        if mc is None:
+            return True
+        if num == 0x88:
+            return mc[2] == 0xFF
+        return num < 16 and bool((mc[0] | mc[1] << 8) >> num & 1)
 
     # returns (response frame or None, state_change_record or None)
     def command(self, frame):
@@ -56,19 +87,22 @@ class SimT3Tag(object):
         if code == 0x00:
             if len(frame) != 6:
                 return None, None
-            sc = frame[2:4]
-            if not all(a == b or a == 0xFF for a, b in zip(sc, self.sys)):
-                return None, None
-            rsp = self.idm + self.pmm
-            if frame[4] == 1:
-                rsp = rsp + self.sys
-            return bytearray([2 + len(rsp), 0x01]) + rsp, None
-        if code not in (0x06, 0x08) or frame[2:10] != self.idm:
+            for n, sc in enumerate(self.systems):
+                hi, lo = sc >> 8, sc & 255
+                if frame[2] in (0xFF, hi) and frame[3] in (0xFF, lo):
+                    rsp = self.idm_of(n) + self.pmm
+                    if frame[4] == 1:
+                        rsp = rsp + bytearray([hi, lo])
+                    return bytearray([2 + len(rsp), 0x01]) + rsp, None
             return None, None
+        sysno = [n for n in range(len(self.systems)) if frame[2:10] == self.idm_of(n)]
+        if code not in (0x06, 0x08) or not sysno:
+            return None, None
+        idm = self.idm_of(sysno[0])
         body = frame[10:]
 
         def status(sf1, sf2):
-            return bytearray([12, code + 1]) + self.idm + bytearray([sf1, sf2])
+            return bytearray([12, code + 1]) + idm + bytearray([sf1, sf2])
         try:
             nsvc = body[0]
             svcs = [body[1 + 2 * i] | body[2 + 2 * i] << 8 for i in range(nsvc)]
@@ -87,8 +121,12 @@ class SimT3Tag(object):
                 blist.append((b0 & 0x0F, b0 >> 4 & 7, num))
         except IndexError:
             return status(0xFF, 0xA1), None
+        if code == 0x08:
+            self.attempts.append([num for (_, _, num) in blist])
         if nsvc < 1 or nsvc > 16:
             return status(0xFF, 0xA1), None
+        if self.systems[sysno[0]] != 0x12FC:
+            return status(0xFF, 0xA6), None         # the NDEF services exist only in the NDEF system
         for s in svcs:
             ok = (s == 0x000B) or (s == 0x0009 and self.rw_service)
             if not ok or (code == 0x08 and s != 0x0009):
@@ -100,20 +138,22 @@ class SimT3Tag(object):
                 return status(1 << (i % 8), 0xA3), None
             if am != 0:
                 return status(1 << (i % 8), 0xA7), None
-            if num >= len(self.blocks):
+            if self._block(num) is None:
+                return status(1 << (i % 8), 0xA8), None
+            if code == 0x08 and not self._writable(num):
                 return status(1 << (i % 8), 0xA8), None
         if code == 0x06:
             if pos != len(body):
                 return status(0xFF, 0xA1), None
-            data = b''.join(bytes(self.blocks[num]) for (_, _, num) in blist)
-            rsp = self.idm + bytearray([0, 0, nblk]) + data
+            data = b''.join(bytes(self._block(num)) for (_, _, num) in blist)
+            rsp = idm + bytearray([0, 0, nblk]) + data
             return bytearray([2 + len(rsp), 0x07]) + rsp, None
         data = body[pos:]
         if len(data) != 16 * nblk:
             return status(0xFF, 0xA9), None
         before = self.memory()
         for i, (_, _, num) in enumerate(blist):
-            self.blocks[num][:] = data[16 * i:16 * i + 16]
+            self._block(num)[:] = data[16 * i:16 * i + 16]
         rec = {'blocks': [num for (_, _, num) in blist], 'data': bytes(data), 'frame': bytes(frame),
                'changed': before != self.memory()}
         return status(0, 0), rec
